@@ -46,11 +46,17 @@ Definition chk_C20 (c o : value) : bool :=
    keeps the connection open (endings 0 and 1) the answer arrives. *)
 Definition chk_tlsraw (c o : value) : bool :=
   match c, o with
-  | VL [VB _; VI ending; VI _; VL _; VI expect], VL [VI hs; a; b] =>
+  | VL (VB _ :: VI ending :: VI _ :: VL _ :: VI expect :: _), VL [VI hs; a; b] =>
       as_bool hs && veqb a b &&
       (if as_bool expect && (ending <=? 1)
-       then match a with VL [VI calls; VI st; VB body] => (calls =? 1) && (st =? 200) && beq body (B "ok") | _ => false end
+       then match a with
+            | VL [VI calls; VI st; VB body; VI e] =>
+                (* the answer arrives whole and the connection is shut in an orderly way, not reset - also when the client
+                   sent more than its request *)
+                (calls =? 1) && (st =? 200) && (beq body (B "ok") || beq body (B "len=3145728")) && (e =? 0)
+            | _ => false
+            end
        else true)
-  | VL [VB _; VI _; VI _; VL _; VI _], _ => false
+  | VL (VB _ :: VI _ :: VI _ :: VL _ :: VI _ :: _), _ => false
   | _, _ => true
   end.
